@@ -227,10 +227,30 @@ def check_c15(tier, t0):
     if not r.ok:
         raise MachineryError("Pragma.tla: " + r.out[-3000:])
     scen = {json.dumps(s, sort_keys=True): s for s in tlc_exports(r, "SCEN")}
-    scen = [scen[k] for k in sorted(scen)]
-    if tier == "quick" and len(scen) > 1500:
+    scen = [dict(scen[k], real=real, known=known) for k in sorted(scen)]
+    if tier == "quick" and len(scen) > 1200:
         rnd.shuffle(scen)
-        scen = scen[:1500]
+        scen = scen[:1200]
+    # second model run: every one of the eight real option names (and an unknown one), one line, one or two tags
+    real8 = {"o%d" % i: n for i, n in enumerate(cw.OPTION_NAMES)}
+    real8["bogus"] = "notanoption"
+    names8 = sorted(real8)
+    known8 = [n for n in names8 if n != "bogus"]
+    with open(os.path.join(d, "Pragma8.cfg"), "w") as f:
+        f.write("SPECIFICATION Spec\nCONSTANTS\n Names = {%s}\n Known = {%s}\n MaxLines = 1\n MaxTags = %d\n"
+                "INVARIANT LastWins\nINVARIANT UnnamedUntouched\nINVARIANT InertLinesInert\nINVARIANT Export\nCHECK_DEADLOCK FALSE\n"
+                % (", ".join('"%s"' % n for n in names8), ", ".join('"%s"' % n for n in known8), 2 if tier == "thorough" else 1))
+    r8 = run_tlc(os.path.join(SPEC, "Pragma.tla"), os.path.join(d, "Pragma8.cfg"), d, workers=8, timeout=1200)
+    if not r8.ok:
+        raise MachineryError("Pragma.tla (8 names): " + r8.out[-3000:])
+    scen8 = {json.dumps(s, sort_keys=True): s for s in tlc_exports(r8, "SCEN")}
+    scen8 = [dict(scen8[k], real=real8, known=known8) for k in sorted(scen8)]
+    if tier == "quick" and len(scen8) > 1500:
+        one = [s for s in scen8 if sum(len(l["tags"]) for l in s["lines"]) <= 1]
+        rest = [s for s in scen8 if s not in one]
+        rnd.shuffle(rest)
+        scen8 = one + rest[: max(0, 1500 - len(one))]
+    scen = scen + scen8
     # the probe must tell the option vectors apart: measured, reported
     allvec = []
     import itertools
@@ -247,12 +267,12 @@ def check_c15(tier, t0):
     jobs = []
     meta = []
     for s in scen:
-        lines = [render_line(ln, real, rnd) for ln in s["lines"]]
+        lines = [render_line(ln, s["real"], rnd) for ln in s["lines"]]
         for base_name, base in (("eff_false", False), ("eff_true", True)):
             caller = {k: base for k in cw.OPTION_NAMES}
             expected = dict(caller)
-            for n in known:
-                expected[real[n]] = bool(s[base_name][n])
+            for n in s["known"]:
+                expected[s["real"][n]] = bool(s[base_name][n])
             src_dir = "\n".join(lines) + ("\n" if lines else "") + PROBE
             neutral = "\n".join(("# removed" if ("pytrapic:" in l and l.lstrip().startswith("#")) else l) for l in lines) + ("\n" if lines else "") + PROBE
             jobs.append({"src": src_dir, "options": caller})
@@ -267,11 +287,24 @@ def check_c15(tier, t0):
             nontrivial += 1
         same = (ra["raised"] is None and rb["raised"] is None and ra["result"] is not None and rb["result"] is not None
                 and ra["result"].get("code") is not None and ra["result"].get("code") == rb["result"].get("code"))
+        # direct observation (hook H2): the option vector in force after the scan is the specification's
+        evs = [e for e in (ra["events"] or []) if e["ev"] == "opts_effective"]
+        if ra["events"] is None or not evs:
+            raise MachineryError("hook H2 (opts_effective) delivered nothing: is the hook commit applied and the guard on?")
+        got_vec = {k: bool(v) for k, v in evs[0]["options"].items() if k in expected}
+        if got_vec != expected:
+            key = "|".join(ln["lead"] + ":" + ",".join(("!" if t["neg"] else "") + s["real"][t["name"]] + t["sep"] for t in ln["tags"]) for ln in s["lines"])
+            rep.violation([key], "EFFECTIVE_OPTIONS_DIFFER",
+                          {"property": "C15", "directive_lines": lines, "caller_options": caller, "expected_effective": expected, "observed_effective": got_vec},
+                          "directive lines %r with caller %s: effective options %s, specification says %s" %
+                          (lines, "all-true" if caller["compact"] else "all-false", {k: v for k, v in got_vec.items() if v != expected[k]},
+                           {k: v for k, v in expected.items() if v != got_vec.get(k)}))
+            continue
         if not same:
             key = "|".join(ln["lead"] + ":" + ",".join(("!" if t["neg"] else "") + t["name"] + t["sep"] for t in ln["tags"]) for ln in s["lines"])
             rep.violation([key], "RESULT_DIFFERS_FROM_API",
                           {"property": "C15", "scenario": s, "directive_lines": lines, "caller_options": caller, "expected_effective": expected,
-                           "with_directives": ra, "through_api": rb, "option_names": real},
+                           "with_directives": ra, "through_api": rb, "option_names": s["real"]},
                           "directive lines %r with caller %s: result differs from API call with the specified effective options" % (lines, "all-true" if caller["compact"] else "all-false"))
     # binding self-test: a wrong expectation must be noticed
     wrong = cw.compile_many([{"src": "# pytrapic: compact\n" + PROBE, "options": cw.opts()}, {"src": "# removed\n" + PROBE, "options": cw.opts()}])
@@ -283,7 +316,7 @@ def check_c15(tier, t0):
                    "choice of which) + an unknown name x negation x '-'/'_' spelling, and checks the fold's properties on each; every text is rendered "
                    "(seeded blanks) onto a probe program and compiled with all-false and all-true caller options; the result must equal compiling "
                    "with the specification's effective options through the API; non-trivial = has an acting directive line with a tag" % (2 if tier == "thorough" else 1, nreal),
-           "real_options_used": {k: real[k] for k in known}, "probe_distinct_outputs_over_256_vectors": distinct_outputs,
+           "real_options_used": {k: real[k] for k in known}, "scenarios_over_all_eight_options": len(scen8), "states_8": r8.distinct, "probe_distinct_outputs_over_256_vectors": distinct_outputs,
            "samples": [{"lines": meta[k][1], "caller": "all-false" if not meta[k][2]["compact"] else "all-true", "expected_effective": meta[k][3]} for k in (0, len(meta) // 2, len(meta) - 1)],
            "known_findings_hit": sorted(rep.known)}
     write_evidence("C15", tier, "model_checking", cov, time.time() - t0, violations=len(rep.violations),
